@@ -26,6 +26,15 @@ def strip(p):
 def log_effect(b, S, ev):
     if ev[1].endswith("Vec::push") and ev[7] and "A2lError" in ev[7][0]:
         return "log " + guards.error_variant(b, ev[6])
+    if ev[1].startswith("checker::") and ev[2]:
+        # literal flags handed to another check function (e.g. is_directly_used = true for CHARACTERISTICs)
+        consts = []
+        for i, a in enumerate(ev[2]):
+            cs = sorted(sym.fmt(t) for t in a if isinstance(t, tuple) and t[0] == "const")
+            if cs and len(cs) == len(a) and all(re.fullmatch(r"true|false|-?\d+_[iu]\d+|-?\d+_[iu]size", c) for c in cs):
+                consts.append("#%d=%s" % (i, "|".join(cs)))
+        if consts:
+            return "call %s(%s)" % (ev[1].split("::")[-1], ", ".join(consts))
     return None
 
 
